@@ -6,6 +6,10 @@
 (B) Threads in the router: the lazy-compile path of CompiledRouter is SEQUENTIALIZED from its current source (engine/seq.py):
     2-3 first-ever find() calls race on a freshly built router whose routes carry different converter instances; the
     pre-emption positions are solver-chosen integers.  Every thread's result must equal the serial result; no exception.
+(C) Frozen shared state: after a warm-up request has compiled the router, processing ANY further request (menu of routes,
+    request / response content types incl. fuzzy matches, Accept headers, errors, 404) on WSGI and ASGI must leave every
+    shared mutable structure of the app untouched -- router tables, both Handlers mappings, option objects, middleware,
+    error-handler, sink and static-route tables.  What no request writes, no interleaving of requests can corrupt.
 """
 import engine.loader as _l
 _l.install()
@@ -17,13 +21,16 @@ import falcon.asgi  # noqa: E402
 import falcon.routing.compiled as C  # noqa: E402
 
 from engine import seq  # noqa: E402
-from engine.envmodels import MiniLoop, running_loop  # noqa: E402
+from engine.envmodels import MiniLoop, asgi_call, make_environ, make_scope, running_loop, wsgi_call  # noqa: E402
 from engine.rt import fail, notrace, pick  # noqa: E402
 
 PROPERTY = 'C19'
 UNITS = ['falcon.asgi.app.App.__call__ (interleaved at every receive/send await)', 'falcon.asgi.request.Request', 'falcon.asgi.response.Response',
          'falcon.routing.compiled.CompiledRouter.find/_compile_and_find/_compile/_generate_ast/_generate_conversion_ast (sequentialized)']
 STUBS = [
+    '(C) a sufficient condition, checked on one request at a time: structures that request processing never writes cannot be raced on; '
+    'a future change that mutates one of them under a lock would need a model like (B) instead (memo caches such as functools.lru_cache '
+    'are not part of the snapshot)',
     '(A) event loop = MiniLoop; the server is the harness: every receive()/send() parks on a gate future the schedule opens',
     '(B) threads = generators produced by the AST sequentializer from the CURRENT source; pre-emption before every statement of the '
     'five methods; `with self._compile_lock` -> model lock; calls into other code (node constructors, regex compile, exec) are atomic; '
@@ -175,6 +182,124 @@ def concurrent_case(picks, choices):
     return 1
 
 
+# ---------------------------------------------------------------- (C) frozen shared state
+CT_MENU = [None, 'application/json', 'application/json; charset=utf-8', 'APPLICATION/JSON', 'application/x-www-form-urlencoded',
+           'application/x-www-form-urlencoded; charset=utf-8', 'text/plain', 'application/*']
+ACCEPT_MENU = [None, '*/*', 'application/xml', 'text/html;q=0.5, application/json', 'application/json; charset=utf-8', 'bogus']
+FBOX = {}
+
+
+def _frozen_responder(req, resp, media):
+    kind = FBOX['kind']
+    if kind == 1:
+        raise falcon.HTTPConflict(title='t', description='d')
+    if kind == 2:
+        raise KeyError('unhandled')
+    if FBOX['rct'] is not None:
+        resp.content_type = FBOX['rct']
+    resp.media = {'echo': media, 'pref': req.client_prefers(['application/json', 'text/html'])}
+
+
+class _FrozenSync:
+    def on_post(self, req, resp, n):
+        _frozen_responder(req, resp, req.get_media(default_when_empty=None) if FBOX['read'] else None)
+
+
+class _FrozenAsync:
+    async def on_post(self, req, resp, n):
+        _frozen_responder(req, resp, (await req.get_media(default_when_empty=None)) if FBOX['read'] else None)
+
+
+_FAPPS = {}
+
+
+def _frozen_app(asgi):
+    if asgi not in _FAPPS:
+        with notrace():
+            app = (falcon.asgi.App if asgi else falcon.App)()
+            app.add_route('/f/{n:int}', _FrozenAsync() if asgi else _FrozenSync())
+            app.add_route('/other', _Plain() if asgi else _FrozenSync())
+
+            async def asink(req, resp, **kw):
+                resp.media = {'sink': True}
+
+            def sink(req, resp, **kw):
+                resp.media = {'sink': True}
+            app.add_sink(asink if asgi else sink, '/sink')
+            # warm-up: the first request compiles the router (the one legitimate, lock-protected mutation: family (B))
+            if asgi:
+                asgi_call(app, make_scope(path='/warmup'))
+            else:
+                wsgi_call(app, make_environ(path='/warmup'))
+            _FAPPS[asgi] = app
+    return _FAPPS[asgi]
+
+
+def _opt_snapshot(o):
+    names = getattr(type(o), '__slots__', None) or sorted(vars(o))
+    out = []
+    for k in names:
+        v = getattr(o, k, None)
+        if hasattr(v, 'data') and isinstance(getattr(v, 'data'), dict):
+            out.append((k, 'handlers', id(v), tuple((hk, id(hv)) for hk, hv in v.data.items())))
+        elif isinstance(v, (bool, int, str, type(None), tuple, frozenset)):
+            out.append((k, repr(v)))
+        elif isinstance(v, (list, dict, set)):
+            out.append((k, type(v).__name__, repr(sorted(map(repr, v)))))
+        else:
+            out.append((k, 'obj', id(v), _opt_snapshot(v) if hasattr(type(v), '__slots__') else None))
+    return tuple(out)
+
+
+def _tree(nodes):
+    return tuple((n.raw_segment, id(n.resource), n.uri_template, _tree(n.children)) for n in nodes)
+
+
+def shared_snapshot(app):
+    r = app._router
+    return {
+        'router finder': id(r._find), 'router return values': tuple(id(x) for x in r._return_values),
+        'router patterns': tuple(p.pattern for p in r._patterns), 'router converters': tuple(id(c) for c in r._converters),
+        'router tree': _tree(r._roots),
+        'req_options': _opt_snapshot(app.req_options), 'resp_options': _opt_snapshot(app.resp_options),
+        'middleware': repr(app._middleware), 'error handlers': tuple((repr(k), id(v)) for k, v in app._error_handlers.items()),
+        'sinks': tuple(tuple(id(y) for y in x) for x in app._sinks),
+        'static routes': tuple(tuple(id(y) for y in x) for x in app._static_routes),
+        'sink/static order': tuple(tuple(id(y) for y in x) for x in app._sink_and_static_routes),
+    }
+
+
+def frozen_case(asgi, path_i, kind, read, ct_i, rct_i, acc_i, body_i):
+    app = _frozen_app(asgi)
+    FBOX.update(kind=kind, read=read, rct=CT_MENU[rct_i])
+    path = ['/f/7', '/f/x', '/nope', '/sink/a', '/other'][path_i]
+    body = [b'', b'{"a": 1}', b'a=1&b=2', b'{'][body_i]
+    headers = []
+    if CT_MENU[ct_i] is not None:
+        headers.append(('Content-Type', CT_MENU[ct_i]))
+    if ACCEPT_MENU[acc_i] is not None:
+        headers.append(('Accept', ACCEPT_MENU[acc_i]))
+    with notrace():
+        before = shared_snapshot(app)
+        try:
+            if asgi:
+                hs = headers + [('Content-Length', str(len(body)))]
+                asgi_call(app, make_scope(method='POST', path=path, headers=hs),
+                          [{'type': 'http.request', 'body': body, 'more_body': False}])
+            else:
+                wsgi_call(app, make_environ(method='POST', path=path, headers=headers, body=body))
+        except KeyError:
+            pass    # kind 2 on WSGI: unhandled exceptions propagate to the server by design
+        after = shared_snapshot(app)
+    if before != after:
+        changed = [k for k in before if before[k] != after[k]]
+        return fail(lambda: 'processing POST %s (%s, request content type %r, response content type %r, Accept %r, body %r, responder kind %d) '
+                    'changed the app\'s shared state: %s\n  before %r\n  after  %r' % (
+                        path, 'ASGI' if asgi else 'WSGI', CT_MENU[ct_i], CT_MENU[rct_i], ACCEPT_MENU[acc_i], body, kind, changed,
+                        {k: before[k] for k in changed}, {k: after[k] for k in changed}))
+    return 1
+
+
 # ---------------------------------------------------------------- (B) threads in the router
 class _R:
     def on_get(self, req, resp, **kw):
@@ -278,6 +403,54 @@ def h(%s) -> int:
 ''' % ((bits,) + trip + (', '.join('c%d' % i for i in range(14)),))
             P.append({'name': 'asgi_triple_%d_%d_%d' % trip, 'fn': 'h', 'src': src, 'timeout': 1200,
                       'bounds': 'three concurrent ASGI requests, 14 gate-order decisions symbolic'})
+    nct, nacc = len(CT_MENU), len(ACCEPT_MENU)
+    for asgi in (0, 1):
+        side = 'asgi' if asgi else 'wsgi'
+        if q:
+            # the response content type matters to a media response, Accept to error serialization: two slices instead of the product
+            src = '''
+def h(path: int, read: bool, ct: int, rct: int) -> int:
+    """
+    pre: 0 <= path <= 4 and 0 <= ct < %d and 0 <= rct < %d
+    post: _ != 0
+    """
+    ct = pick(ct, 0, %d)
+    rct = pick(rct, 0, %d)
+    return frozen_case(%d, pick(path, 0, 4), 0, bool(pick(int(read), 0, 1)), ct, rct, (ct + rct) %% %d, 2 if ct in (4, 5) else 1)
+''' % (nct, nct, nct - 1, nct - 1, asgi, nacc)
+            P.append({'name': 'frozen_%s_media' % side, 'fn': 'h', 'src': src, 'timeout': 250,
+                      'bounds': '(C) one %s POST on a warmed-up app, responder answers with media: path (5: route, converter veto, 404, sink, '
+                                'other route) x request content type (%d) x response content type (%d, incl. parameterised / wildcard forms '
+                                'resolved by fuzzy match) x body parsed or not -- every combination chosen by the solver (finite table) and '
+                                'executed concretely; the snapshot of all shared app structures must be unchanged' % (side.upper(), nct, nct)})
+            src = '''
+def h(path: int, read: bool, ct: int, acc: int, kind: int) -> int:
+    """
+    pre: 0 <= path <= 4 and 0 <= ct < %d and 0 <= acc < %d and 1 <= kind <= 2
+    post: _ != 0
+    """
+    return frozen_case(%d, pick(path, 0, 4), pick(kind, 1, 2), bool(pick(int(read), 0, 1)), pick(ct, 0, %d), 1, pick(acc, 0, %d), 3)
+''' % (nct, nacc, asgi, nct - 1, nacc - 1)
+            P.append({'name': 'frozen_%s_error' % side, 'fn': 'h', 'src': src, 'timeout': 250,
+                      'bounds': '(C) one %s POST on a warmed-up app, responder raises HTTPError / an unhandled exception (or the request is '
+                                'unroutable / has a malformed body): path (5) x request content type (%d) x Accept (%d) x body parsed or not; '
+                                'shared-state snapshot unchanged' % (side.upper(), nct, nacc)})
+            continue
+        for path_i in range(5):
+            src = '''
+def h(kind: int, read: bool, ct: int, rct: int, acc: int, body: int) -> int:
+    """
+    pre: 0 <= kind <= 2 and 0 <= ct < %d and 0 <= rct < %d and 0 <= acc < %d and 0 <= body <= 3
+    post: _ != 0
+    """
+    return frozen_case(%d, %d, pick(kind, 0, 2), bool(pick(int(read), 0, 1)), pick(ct, 0, %d), pick(rct, 0, %d), pick(acc, 0, %d), pick(body, 0, 3))
+''' % (nct, nct, nacc, asgi, path_i, nct - 1, nct - 1, nacc - 1)
+            P.append({'name': 'frozen_%s_path%d' % (side, path_i), 'fn': 'h', 'src': src, 'timeout': 900,
+                      'bounds': '(C) one %s POST to %s on a warmed-up app: responder kind (media response / HTTPError / unhandled exception), '
+                                'request content type (%d), response content type (%d, incl. parameterised and wildcard forms that resolve by '
+                                'fuzzy match), Accept (%d), body (4), whether the body is parsed -- every combination, chosen by the solver '
+                                '(finite table) and executed concretely; the snapshot of all shared app structures must be unchanged' % (
+                                    side.upper(), ['/f/7', '/f/x (converter veto -> 404)', '/nope', '/sink/a', '/other'][path_i], nct, nct, nacc)})
     P.append({'name': 'seq_selfcheck', 'fn': 'h', 'concrete': True, 'timeout': 120, 'src': 'def h() -> int:\n    return seq_selfcheck()\n',
               'bounds': 'concrete: the sequentialized router (regenerated from the current source) equals the real router when run without '
                         'pre-emption'})
